@@ -121,4 +121,5 @@ def main():
     print("@@" + json.dumps(out))
 
 
-main()
+if __name__ == "__main__":
+    main()
